@@ -145,8 +145,11 @@ def translate(ctx):
 # forcing completion orders from the harness (no source hook)
 
 _DELAYS = None  # dict j -> seconds, set before the pool forks
-_ORDER = mp.Array("i", 8192, lock=False)
-_POS = mp.Value("i", 0)
+# completion record, lock free (a worker killed by a mutated parent must not leave a lock behind): every task
+# stamps its own slot with the system-wide monotonic clock when it returns and counts its executions
+_STAMP = mp.RawArray("d", 8192)
+_RUNS = mp.RawArray("i", 8192)
+_PIDS = mp.RawArray("i", 8192)
 
 
 def _wrap(mod, name):
@@ -159,10 +162,10 @@ def _wrap(mod, name):
         if _DELAYS:
             time.sleep(_DELAYS.get(j, 0.0))
         r = orig(args)
-        with _POS.get_lock():
-            if _POS.value < len(_ORDER):
-                _ORDER[_POS.value] = j
-                _POS.value += 1
+        if isinstance(j, (int, np.integer)) and 0 <= j < len(_STAMP):
+            _RUNS[j] += 1
+            _PIDS[j] = os.getpid()
+            _STAMP[j] = time.monotonic()
         return r
 
     wrapper.__module__ = orig.__module__
@@ -198,11 +201,45 @@ def _set_delays(LF, pattern, seed, perm=None, gap=0.02):
     else:
         d = rng.permutation(LF)
         _DELAYS = {j: 0.003 * int(d[j]) for j in range(LF)}
-    _POS.value = 0
+    _reset_order()
+
+
+def _reset_order():
+    np.frombuffer(_STAMP)[:] = 0.0
+    np.frombuffer(_RUNS, dtype=np.intc)[:] = 0
 
 
 def _observed_order():
-    return [int(_ORDER[i]) for i in range(_POS.value)]
+    """task indices in the order in which they returned (a task executed k times appears k times)"""
+    st = np.frombuffer(_STAMP)
+    runs = np.frombuffer(_RUNS, dtype=np.intc)
+    js = np.nonzero(runs)[0]
+    js = js[np.argsort(st[js], kind="stable")]
+    out = []
+    for j in js:
+        out += [int(j)] * int(runs[j])
+    return out
+
+
+class _Hang(Exception):
+    pass
+
+
+@contextlib.contextmanager
+def _deadline(seconds):
+    """a call into the (possibly changed) parallel path must come back"""
+    import signal
+
+    def handler(signum, frame):
+        raise _Hang("no return within %d s" % seconds)
+
+    old = signal.signal(signal.SIGALRM, handler)
+    signal.setitimer(signal.ITIMER_REAL, seconds)
+    try:
+        yield
+    finally:
+        signal.setitimer(signal.ITIMER_REAL, 0)
+        signal.signal(signal.SIGALRM, old)
 
 
 # ---------------------------------------------------------------------------------------
@@ -582,11 +619,14 @@ def _execute(routine, c, parallel):
     """one call of the routine: parallel='no', or the parallel path on the real pool / on the recording pool
     (c['pool'] == 'fake': tasks executed in-process in the order c['order']); -> (outputs, plans)"""
     run = _run_srs if routine == "srs" else _run_fde
-    if parallel == "no" or c.get("pool") != "fake":
+    if parallel == "no":
         return run(c, parallel), None
+    if c.get("pool") != "fake":
+        with _deadline(180):
+            return run(c, parallel), None
     _FAKE["plans"] = []
     _FAKE["order"] = list(c.get("order") or [])
-    _POS.value = 0
+    _reset_order()
     with _patched(cpu=c.get("cpu", 16), win=False, pool=_FakePool):
         out = run(c, parallel)
     return out, _FAKE["plans"]
@@ -687,31 +727,13 @@ def _compare_all(ctx, report, hints=(), extra=()):
     plan_checks = []
     for routine, c in cases:
         fake = c.get("pool") == "fake"
-        try:
-            ser, _ = _execute(routine, c, "no")
-            par, plans = _execute(routine, c, c.get("parallel", "yes"))
-        except Exception as e:  # a crash of the parallel path is a finding, of the serial one too
-            report(routine, c, "exception %s: %s" % (type(e).__name__, e))
-            continue
-        order = _observed_order()
-        d = _first_diff(_bytes_of(par), _bytes_of(ser), routine)
-        if fake:
-            nontriv = c["LF"] >= 2 and order != sorted(order)
-        else:
-            nontriv = c["LF"] >= 2 and (c["maxcpu"] is None or c["maxcpu"] >= 2) and order != sorted(order)
-        ctx.case((routine, tuple(sorted((k, str(v)) for k, v in c.items())), tuple(order)), nontrivial=nontriv,
-                 branch="%s:%s" % (routine, c.get("ic", c.get("resp"))))
+        # what was generated is counted before the call: a case that raises is a disagreement, not a missed branch
+        ctx.count("%s:%s" % (routine, c.get("ic", c.get("resp"))))
         ctx.count("pattern:" + c["pattern"])
         ctx.count("pool:" + ("recording" if fake else "real"))
         if c.get("dup_freq") and c["LF"] >= 3:
             ctx.count("dup-freq:" + routine)
         ctx.count("maxcpu:%s" % c["maxcpu"])
-        if c["pattern"] == "perm":
-            want = list(c["order"])
-            hit = order == want
-            ctx.count("perm-%s:%s" % ("recording" if fake else "real", "observed" if hit else "missed"))
-            if hit:
-                _PERMS_SEEN.setdefault(("recording" if fake else "real", routine, c["LF"]), set()).add(tuple(order))
         if routine == "srs":
             ctx.count("stype:" + c["stype"])
             ctx.count("getresp:%s" % c["getresp"])
@@ -722,6 +744,31 @@ def _compare_all(ctx, report, hints=(), extra=()):
         else:
             ctx.count("fde-rolloff:" + c.get("rolloff", "none"))
             ctx.count("fde-hpfilter:%s" % c.get("hpfilter", "default"))
+        try:
+            ser, _ = _execute(routine, c, "no")
+            par, plans = _execute(routine, c, c.get("parallel", "yes"))
+        except Exception as e:  # a crash of the parallel path is a finding, of the serial one too
+            ctx.case((routine, tuple(sorted((k, str(v)) for k, v in c.items())), "raised"), nontrivial=False)
+            report(routine, c, "exception %s: %s" % (type(e).__name__, e))
+            continue
+        order = _observed_order()
+        d = _first_diff(_bytes_of(par), _bytes_of(ser), routine)
+        if fake:
+            nontriv = c["LF"] >= 2 and order != sorted(order)
+        else:
+            nontriv = c["LF"] >= 2 and (c["maxcpu"] is None or c["maxcpu"] >= 2) and order != sorted(order)
+        ctx.case((routine, tuple(sorted((k, str(v)) for k, v in c.items())), tuple(order)), nontrivial=nontriv)
+        if c["pattern"] == "perm":
+            want = list(c["order"])
+            hit = order == want
+            ctx.count("perm-%s:%s" % ("recording" if fake else "real", "observed" if hit else "missed"))
+            if hit:
+                _PERMS_SEEN.setdefault(("recording" if fake else "real", routine, c["LF"]), set()).add(tuple(order))
+        if not fake:
+            # "maxcpu: maximum number of CPUs to use": the tasks must not have run in more processes than that
+            pids = {int(_PIDS[j]) for j in set(order)}
+            if c["maxcpu"] and len(pids) > c["maxcpu"]:
+                report(routine, c, "tasks ran in %d different worker processes with maxcpu=%d" % (len(pids), c["maxcpu"]))
         went_serial = fake and c.get("parallel") == "auto" and not plans
         if len(order) != c["LF"] and not went_serial:
             report(routine, c, "the pool ran %d tasks for %d frequencies (observed %s)" % (len(order), c["LF"], order))
@@ -1073,8 +1120,8 @@ def correspondence(ctx):
                           "decision:auto->yes", "decision:auto->no", "decision:invalid->raise", "decision:yes->yes",
                           "sequence:srs", "sequence:fdepsd", "layout:F", "layout:strided", "rolloff:fft",
                           "fde-rolloff:lanczos", "maxcpu:None"] + ["peak:" + p for p in _PEAKS])
-    if not ctx.disagreements:
-        # on a run without any disagreement every order of <= 4 tasks must have been executed on the recording
+    if not ctx.disagreements and not ctx.broken:
+        # on a run without any disagreement or broken obligation every order of <= 4 tasks must have been executed on the recording
         # pool and the plan stream must have run (a case that raises is a disagreement and ends up as a violation)
         ctx.require_branches(["all-orders-recording:srs:4", "all-orders-recording:fdepsd:4", "all-orders-recording:srs:3",
                               "parent-plan:srs", "parent-plan:fdepsd", "auto:parallel", "auto:serial"])
@@ -1098,6 +1145,8 @@ def _auto_cases(ctx):
 def _family(routine, c, detail):
     if "sequence" in c:
         return "parallel-call-sequence:%s" % routine
+    if str(detail).startswith("tasks ran in"):
+        return "more-worker-processes-than-maxcpu:%s" % routine
     return "parallel-differs-from-serial:%s" % routine
 
 
@@ -1113,6 +1162,10 @@ def _confirm(inp):
         d = _first_diff(_bytes_of(par), _bytes_of(ser), inp["routine"])
         if not d and c.get("pool") != "fake" and len(_observed_order()) != c["LF"]:
             d = "the pool ran %d tasks for %d frequencies" % (len(_observed_order()), c["LF"])
+        if not d and c.get("pool") != "fake" and c["maxcpu"]:
+            pids = {int(_PIDS[j]) for j in set(_observed_order())}
+            if len(pids) > c["maxcpu"]:
+                d = "tasks ran in %d different worker processes with maxcpu=%d" % (len(pids), c["maxcpu"])
         if d and c.get("pool") == "fake":
             # seen under the controlled scheduler: say whether the real pool shows it too (same wanted order, forced by delays)
             c2 = dict(c, pool="real", gap=0.05)
@@ -1163,9 +1216,17 @@ def _doc_oracle(ctx):
     ncpu_box = mp.cpu_count()
     for par, mc in [("no", 3), ("yes", 1), ("yes", 2), ("yes", None), ("yes", 10 ** 6)]:
         _set_delays(3, "none", 0)
-        with warnings.catch_warnings():
-            warnings.simplefilter("ignore")
-            ns = fdepsd.fdepsd(sig, 400.0, freq, 15.0, parallel=par, maxcpu=mc, verbose=False, rolloff="none", winends=None)
+        try:
+            with warnings.catch_warnings(), _deadline(180):
+                warnings.simplefilter("ignore")
+                ns = fdepsd.fdepsd(sig, 400.0, freq, 15.0, parallel=par, maxcpu=mc, verbose=False, rolloff="none", winends=None)
+        except Exception as e:  # noqa: BLE001 - the serial call of the same input returns (checked first in the loop)
+            ctx.fail("parallel-path-raises:fdepsd", "fdepsd(parallel=%r, maxcpu=%r) raises %s: %s" % (par, mc, type(e).__name__, str(e)[:200]),
+                     {"routine": "fdepsd-options", "case": {"parallel": par, "maxcpu": mc}}, type(e).__name__,
+                     "the result of parallel='no'")
+            if par == "no":
+                return
+            continue
         ok = ns.parallel == par and 1 <= ns.ncpu <= ncpu_box
         if par == "no":
             ok = ok and ns.ncpu == 1
